@@ -6,13 +6,14 @@ are specified, not guessed); has_listeners() after every top-level operation; a 
 generated payload shapes against generated declarations with checking on and off.
 """
 import itertools
+import json
 
 ID = "C08"
 LEVEL = "exploration"
 TECHNIQUE = "runtime monitor: delivery log vs executable reference subscription model incl. re-entrant listener scripts; metadata conformance sweep"
 RULE = ("family 'hist': seeded random histories of 10-40 top-level ops (add/remove listener, the four "
         "remove_all_listeners forms, fire, fire_timed, fire_event, fire_timed_event, has_listeners) over 2-4 event "
-        "types and 2-5 listeners whose notify() runs generated scripts (subscription changes on self/others, nested "
+        "types (in half of the cases all of one name, declared in different classes) and 2-5 listeners whose notify() runs generated scripts (subscription changes on self/others, nested "
         "fire up to depth 3); every fired content is a unique integer; family 'meta': metadata declarations (0-4 "
         "keys, types int/float/str/bool/list/Duration) x payload shapes x check on/off x Event/TimedEvent; "
         "non-trivial(hist) = >=1 subscription change executed inside a notification and >=1 nested fire delivered; "
@@ -148,7 +149,17 @@ def run_case(case, ctx):
     from pydsol.core.pubsub import EventProducer, EventListener, EventType, Event, TimedEvent
     from vlib.base import fx
     n = next(_uid)
-    types = [EventType(f"c08_{n}_{t}") for t in range(case["nt"])]
+    if len(json.dumps(case["scripts"])) % 2 == 0:
+        # event types of the same name declared in different classes are different types (the defining class is part of
+        # a type's identity): Machine.STATUS and Conveyor.STATUS on one producer must not share subscriptions
+        types = []
+        for t in range(case["nt"]):
+            ns = {}
+            exec(f"class C08_{n}_{t}:\n    STATUS = EventType('c08_{n}_STATUS')\n", {"EventType": EventType}, ns)
+            types.append(ns[f"C08_{n}_{t}"].STATUS)
+        ctx.count("cases_with_same_named_types_of_different_classes")
+    else:
+        types = [EventType(f"c08_{n}_{t}") for t in range(case["nt"])]
     tindex = {id(t): i for i, t in enumerate(types)}
     prod = EventProducer()
     log = []
